@@ -4,10 +4,16 @@ class References:
 
   def _prepare_and_check_ref(self, ref):
     if isinstance(ref, str):
-      ref = self._line_for_ref_symbol(ref)
+      line = self._gfa.line(ref)
+      if line is None:
+        raise gfapy.NotFoundError(
+          "Line: {}\n".format(self)+
+          "Cannot add the item {}: no line with this ID".format(repr(ref)))
+      ref = line
     self._check_ref_class(ref)
     self._check_ref_connection(ref)
     self._check_ref_not_self(ref)
+    ref._add_reference(self, "paths" if (self.record_type == "O") else "sets")
     return ref
 
   def _check_ref_class(self, item):
@@ -16,6 +22,7 @@ class References:
          gfapy.line.segment.GFA2,
          gfapy.line.gap.Gap,
          gfapy.line.group.Ordered,
+         gfapy.line.unknown.Unknown,
          self.__class__]:
       raise gfapy.ArgumentError(
         "Line: {}\n".format(self)+
@@ -24,7 +31,7 @@ class References:
         "can be added\n(* = unordered groups to unordered groups only).")
 
   def _check_ref_connection(self, item):
-    if item.line.gfa != self._gfa:
+    if item.gfa is not self._gfa:
       raise gfapy.ArgumentError(
         "Line: {}\n".format(self)+
         "Item: {}".format(repr(item))+
@@ -32,7 +39,7 @@ class References:
         "to the same GFA object as the group")
 
   def _check_ref_not_self(self, item):
-    if (item.line == self):
+    if item is self:
       raise gfapy.RuntimeError(
         "Line: {}\n".format(self)+
         "Item is the line itself\n"+
